@@ -1,0 +1,192 @@
+//! Verification hooks. Compiled only with `--cfg hbs_lms_verif`; never part of a normal build.
+//!
+//! Thin, add-only wrappers that expose crate-internal functions and types to the external
+//! verification harness. Nothing in here is used by the library itself.
+
+use tinyvec::ArrayVec;
+
+use crate::hasher::HashChain;
+use crate::hss::definitions::HssPrivateKey;
+use crate::hss::parameter::HssParameter;
+use crate::hss::reference_impl_private_key::{
+    generate_child_seed_and_lms_tree_identifier, generate_signature_randomizer,
+};
+use crate::lm_ots::parameters::LmotsAlgorithm;
+use crate::lms::get_tree_element;
+use crate::lms::parameters::LmsAlgorithm;
+use crate::util::coef::coef;
+
+pub use crate::constants::{
+    LmsTreeIdentifier, MAX_ALLOWED_HSS_LEVELS, MAX_HASH_SIZE, MAX_HSS_PUBLIC_KEY_LENGTH,
+    MAX_HSS_SIGNATURE_LENGTH, MAX_HSS_SIGNED_PUBLIC_KEY_LENGTH, MAX_LMOTS_SIGNATURE_LENGTH,
+    MAX_LMS_PUBLIC_KEY_LENGTH, MAX_LMS_SIGNATURE_LENGTH, MAX_NUM_WINTERNITZ_CHAINS,
+    MAX_TREE_HEIGHT, MIN_WINTERNITZ_PARAMETER, REF_IMPL_MAX_PRIVATE_KEY_SIZE, TREE_HEIGHTS,
+    WINTERNITZ_PARAMETERS,
+};
+pub use crate::hss::reference_impl_private_key::{
+    CompressedParameterSet, CompressedUsedLeafsIndexes, ReferenceImplPrivateKey, Seed,
+    SeedAndLmsTreeIdentifier,
+};
+pub use crate::lm_ots::definitions::LmotsPrivateKey;
+pub use crate::lm_ots::keygen::generate_private_key as lmots_generate_private_key;
+pub use crate::lms::definitions::LmsPrivateKey;
+pub use crate::util::ArrayVecZeroize;
+
+/// (type id, w, p, ls) of an LM-OTS type code for hash `H`.
+pub fn lmots_row<H: HashChain>(lmots_type: u32) -> Option<(u32, u8, u16, u8)> {
+    let p = LmotsAlgorithm::get_from_type::<H>(lmots_type)?;
+    Some((
+        p.get_type_id(),
+        p.get_winternitz(),
+        p.get_num_winternitz_chains(),
+        p.get_checksum_left_shift(),
+    ))
+}
+
+/// (type id, h) of an LMS type code.
+pub fn lms_row<H: HashChain>(lms_type: u32) -> Option<(u32, u8)> {
+    let p = LmsAlgorithm::get_from_type::<H>(lms_type)?;
+    Some((p.get_type_id(), p.get_tree_height()))
+}
+
+/// Chain positions used for `digest` (which must be `H::OUTPUT_SIZE` bytes long).
+pub fn digits<H: HashChain>(lmots_type: u32, digest: &[u8]) -> Option<ArrayVec<[u16; 272]>> {
+    let p = LmotsAlgorithm::get_from_type::<H>(lmots_type)?;
+    let q = p.append_checksum_to(digest);
+    let mut out = ArrayVec::new();
+    for i in 0..p.get_num_winternitz_chains() {
+        out.push(coef(q.as_slice(), i, p.get_winternitz()) as u16);
+    }
+    Some(out)
+}
+
+fn params_of<H: HashChain>(
+    lms_types: &[u32],
+) -> Option<ArrayVec<[HssParameter<H>; MAX_ALLOWED_HSS_LEVELS]>> {
+    let mut out = ArrayVec::new();
+    if lms_types.len() > MAX_ALLOWED_HSS_LEVELS {
+        return None;
+    }
+    for t in lms_types {
+        LmsAlgorithm::get_from_type::<H>(*t)?;
+        out.push(HssParameter::new(
+            LmotsAlgorithm::LmotsW8,
+            LmsAlgorithm::from(*t),
+        ));
+    }
+    Some(out)
+}
+
+/// Leaf index per level for a counter, as the private key computes it.
+pub fn ctr_leaves<H: HashChain>(
+    lms_types: &[u32],
+    counter: u64,
+) -> Option<ArrayVec<[u32; MAX_ALLOWED_HSS_LEVELS]>> {
+    let params = params_of::<H>(lms_types)?;
+    let all = CompressedUsedLeafsIndexes::new(counter).to(&params);
+    let mut out = ArrayVec::new();
+    for q in all.iter().take(params.len()) {
+        out.push(*q);
+    }
+    Some(out)
+}
+
+/// Successor of a counter: `Some(Some(c'))`, or `Some(None)` when the key is exhausted (wiped).
+pub fn ctr_increment<H: HashChain>(lms_types: &[u32], counter: u64) -> Option<Option<u64>> {
+    let params = params_of::<H>(lms_types)?;
+    let mut heights: ArrayVec<[u8; MAX_ALLOWED_HSS_LEVELS]> = ArrayVec::new();
+    for p in params.iter() {
+        heights.push(p.get_lms_parameter().get_tree_height());
+    }
+    let mut c = CompressedUsedLeafsIndexes::new(counter);
+    match c.increment(&heights) {
+        Ok(()) => {
+            let mut k: ReferenceImplPrivateKey<H> = Default::default();
+            k.compressed_used_leafs_indexes = c;
+            let b = k.to_binary_representation();
+            let mut v = [0u8; 8];
+            v.copy_from_slice(&b[..8]);
+            Some(Some(u64::from_be_bytes(v)))
+        }
+        Err(()) => Some(None),
+    }
+}
+
+/// Remaining lifetime for a counter, computed by the real `get_lifetime` on a private key whose
+/// per-level leaf counters are what `HssPrivateKey::from` leaves behind (upper levels have already
+/// consumed their current leaf), without generating any tree.
+pub fn ctr_lifetime<H: HashChain>(lms_types: &[u32], counter: u64) -> Option<u64> {
+    let params = params_of::<H>(lms_types)?;
+    let leaves = CompressedUsedLeafsIndexes::new(counter).to(&params);
+    let mut key: HssPrivateKey<H> = Default::default();
+    let levels = params.len();
+    for (i, p) in params.iter().enumerate() {
+        let used = if i + 1 < levels {
+            leaves[i] + 1
+        } else {
+            leaves[i]
+        };
+        key.private_key.push(LmsPrivateKey::new(
+            Seed::default(),
+            [0u8; 16],
+            used,
+            *p.get_lmots_parameter(),
+            *p.get_lms_parameter(),
+        ));
+    }
+    Some(key.get_lifetime())
+}
+
+/// Root seed and tree identifier of a private key blob.
+pub fn root_seed<H: HashChain>(sk: &[u8]) -> Option<(ArrayVec<[u8; 32]>, [u8; 16])> {
+    let k = ReferenceImplPrivateKey::<H>::from_binary_representation(sk).ok()?;
+    let s = k.generate_root_seed_and_lms_tree_identifier();
+    let mut seed = ArrayVec::new();
+    seed.extend_from_slice(s.seed.as_slice());
+    Some((seed, s.lms_tree_identifier))
+}
+
+fn seed_of<H: HashChain>(seed: &[u8]) -> Option<Seed<H>> {
+    if seed.len() != H::OUTPUT_SIZE as usize {
+        return None;
+    }
+    let mut s = Seed::<H>::default();
+    s.as_mut_slice().copy_from_slice(seed);
+    Some(s)
+}
+
+/// Child seed and tree identifier below leaf `q` of the tree (`seed`, `id`).
+pub fn child_seed<H: HashChain>(
+    seed: &[u8],
+    id: &[u8; 16],
+    q: u32,
+) -> Option<(ArrayVec<[u8; 32]>, [u8; 16])> {
+    let parent = SeedAndLmsTreeIdentifier::<H>::new(&seed_of::<H>(seed)?, id);
+    let c = generate_child_seed_and_lms_tree_identifier::<H>(&parent, &q);
+    let mut out = ArrayVec::new();
+    out.extend_from_slice(c.seed.as_slice());
+    Some((out, c.lms_tree_identifier))
+}
+
+/// Signature randomizer of leaf `q` of the tree (`seed`, `id`).
+pub fn randomizer<H: HashChain>(seed: &[u8], id: &[u8; 16], q: u32) -> Option<ArrayVec<[u8; 32]>> {
+    let t = SeedAndLmsTreeIdentifier::<H>::new(&seed_of::<H>(seed)?, id);
+    Some(generate_signature_randomizer::<H>(&t, &q))
+}
+
+/// Merkle tree node `T[index]` of the tree (`seed`, `id`) with the given type codes.
+pub fn tree_node<H: HashChain>(
+    seed: &[u8],
+    id: &[u8; 16],
+    lmots_type: u32,
+    lms_type: u32,
+    index: usize,
+) -> Option<ArrayVec<[u8; 32]>> {
+    let lmots = LmotsAlgorithm::get_from_type::<H>(lmots_type)?;
+    let lms = LmsAlgorithm::get_from_type::<H>(lms_type)?;
+    if index == 0 || index >= 2 * lms.number_of_lm_ots_keys() {
+        return None;
+    }
+    let key = LmsPrivateKey::new(seed_of::<H>(seed)?, *id, 0, lmots, lms);
+    Some(get_tree_element(index, &key, &mut None))
+}
